@@ -1,36 +1,44 @@
 import SodiumModel.Driver.Common
 import SodiumModel.Model.SignOps
+import SodiumModel.Model.Ge25519Ref10
 import SodiumModel.Spec.Sha512
 import SodiumModel.Spec.Ed25519
 import SodiumModel.Spec.Scalar25519
 /-
   C06 driver: the `sign.*` operations run the MODEL of sign.c / open.c / keypair.c
   (`Sodium.Model.Sign`, including the byte-loop models of `sc25519_is_canonical` and
-  `ge25519_is_canonical`) instantiated with the executable RFC 8032 group operations of
-  `Spec/Ed25519.lean` (`Model/SignOps.lean`).
+  `ge25519_is_canonical`) instantiated with `Model.Ge25519.refOps`: the C-STRUCTURED model of the
+  ge25519 group code of ed25519_ref10.c (`Model/Ge25519Ref10.lean`: frombytes / frombytes_negate_vartime,
+  has_small_order, slide_vartime + double_scalarmult_vartime, p2_to_p3, p3_sub, the radix-16 recoding +
+  scalarmult_base over the generated base table, p3_tobytes) over the specification field.
+  (`Model/SignOps.lean`'s `specOps`, the RFC 8032 group operations of `Spec/Ed25519.lean`, is what
+  `Properties/C06.lean` uses for the concrete deviation theorems.)
 -/
 namespace Sodium.Driver.C06
 open Sodium Sodium.Driver Sodium.Model.Sign
+
+/-- the primitives the driver runs the sign/verify model with -/
+abbrev ops := Sodium.Model.Ge25519.refOps
 
 def rcStr (r : Int32) : String := toString r.toInt
 
 def handle (op : String) (args : List String) : Option String :=
   match op, args with
   | "sign.seed_keypair", [seed] => do
-    let (pk, sk) := Model.Sign.seed_keypair specOps (← ofHex seed)
+    let (pk, sk) := Model.Sign.seed_keypair ops (← ofHex seed)
     some s!"{toHex pk} {toHex sk}"
   | "sign.detached", [m, sk] => do
     -- the harness compares crypto_sign_detached with crypto_sign itself (FORMS-DIFFER); so does the model
     let m ← ofHex m; let sk ← ofHex sk
-    let d := Model.Sign.crypto_sign_detached specOps m sk
-    let s := Model.Sign.crypto_sign specOps m sk
+    let d := Model.Sign.crypto_sign_detached ops m sk
+    let s := Model.Sign.crypto_sign ops m sk
     let bad := d.siglen != 64 || s.smlen != m.length + 64 || s.sm != d.sig ++ m || s.rc != 0
     some s!"{if bad then "FORMS-DIFFER " else ""}{toHex d.sig}"
   | "sign.verify", [sig, m, pk] => do
     let sig ← ofHex sig; let m ← ofHex m; let pk ← ofHex pk
-    let rc := Model.Sign.crypto_sign_verify_detached specOps sig m pk
+    let rc := Model.Sign.crypto_sign_verify_detached ops sig m pk
     -- the harness also runs crypto_sign_open on sig ‖ m and reports disagreements; mirror it
-    let o := Model.Sign.crypto_sign_open specOps (some (List.replicate (m.length + 64) 0x5c)) (sig ++ m) pk
+    let o := Model.Sign.crypto_sign_open ops (some (List.replicate (m.length + 64) 0x5c)) (sig ++ m) pk
     let buf := (o.m.getD []).take m.length
     let f1 := if o.rc != rc then "OPEN-RC-DIFFERS " else ""
     let f2 := if o.rc == 0 && (o.mlen != m.length || buf != m) then "OPEN-MSG-DIFFERS " else ""
@@ -39,14 +47,14 @@ def handle (op : String) (args : List String) : Option String :=
     some s!"{f1}{f2}{f3}{f4}{rcStr rc}"
   | "sign.open", [sm, pk] => do
     let sm ← ofHex sm; let pk ← ofHex pk
-    let o := Model.Sign.crypto_sign_open specOps (some (List.replicate sm.length 0x5c)) sm pk
+    let o := Model.Sign.crypto_sign_open ops (some (List.replicate sm.length 0x5c)) sm pk
     some s!"{rcStr o.rc} {o.mlen} {toHex ((o.m.getD []).take (sm.length - 64))}"
   | "sign.ph", "create" :: sk :: cs => do
     let sk ← ofHex sk; let cs ← cs.mapM ofHex
-    some (toHex (Model.Sign.ph_final_create specOps cs.flatten sk).sig)
+    some (toHex (Model.Sign.ph_final_create ops cs.flatten sk).sig)
   | "sign.ph", "verify" :: sig :: pk :: cs => do
     let cs ← cs.mapM ofHex
-    some (rcStr (Model.Sign.ph_final_verify specOps cs.flatten (← ofHex sig) (← ofHex pk)))
+    some (rcStr (Model.Sign.ph_final_verify ops cs.flatten (← ofHex sig) (← ofHex pk)))
   | _, _ => none
 
 end Sodium.Driver.C06
